@@ -3,7 +3,7 @@
    same sat ranges.  Used to combine C03's invariant with C02's partition into Index::find(sat) = satpoint. *)
 From OrdV Require Import Base.Prelude Generated Index.Inscr Proofs.Inscr_tables Proofs.Inscr_proofs
   Proofs.Inscr_c07 Proofs.Inscr_c04 Proofs.Inscr_c03 Proofs.Inscr_sats Proofs.Inscr_c04off Proofs.Inscr_satinv Proofs.Inscr_total.
-From OrdV Require Index.SatIndex Proofs.SatIndex_partition.
+From OrdV Require Index.SatIndex Proofs.SatIndex_proofs Proofs.SatIndex_partition.
 From Coq Require Import Permutation ZifyBool ZifyN.
 
 Module S := SatIndex.
@@ -509,3 +509,92 @@ Qed.
 
 Lemma BR_init : BR 0 empty_state S.init.
 Proof. split; cbn; [intros op rs _ H; discriminate | reflexivity | reflexivity]. Qed.
+
+(* ---- Index::find on the sat of an inscription *)
+
+Module SP := SatIndex_partition.
+
+Lemma calc_nth : forall rs o g n, calc_sat_in rs o g = Ok n -> o <= g ->
+  nth_error (S.flatten rs) (N.to_nat (g - o)) = Some n.
+Proof.
+  intros rs. induction rs as [|[s e] r IH]; intros o g n H Hle; cbn [calc_sat_in] in H; [discriminate|].
+  unfold S.flatten. cbn [flat_map]. fold (S.flatten r). unfold S.flat1. cbn [fst snd].
+  destruct (N.ltb_spec g (o + (e - s))).
+  - inv H. rewrite nth_error_app1 by (rewrite SatIndex_proofs.nseq_length; lia).
+    rewrite SP.nth_error_nseq by lia. f_equal. lia.
+  - rewrite nth_error_app2 by (rewrite SatIndex_proofs.nseq_length; lia). rewrite SatIndex_proofs.nseq_length.
+    specialize (IH _ _ _ H). replace (N.to_nat (g - o) - N.to_nat (e - s))%nat with (N.to_nat (g - (o + (e - s)))) by lia. apply IH. lia.
+Qed.
+
+Lemma aget_In : forall {V} k (v : V) m, S.aget S.op_eqb k m = Some v -> In (k, v) m.
+Proof.
+  intros V k v m. change S.op_eqb with pair_eqb. induction m as [|[k' v'] r IH]; cbn [S.aget]; [discriminate|].
+  destruct (pair_eqb k k') eqn:Q; intro H.
+  - apply pair_eqb_eq in Q. inv H. left. reflexivity.
+  - right. auto.
+Qed.
+
+Lemma sat_at_unique : forall (m : S.umap) o rs k o' rs' k' s,
+  NoDup (SP.usats m) -> In (o, rs) m -> In (o', rs') m ->
+  nth_error (S.flatten rs) k = Some s -> nth_error (S.flatten rs') k' = Some s ->
+  o = o' /\ k = k'.
+Proof.
+  intros m. induction m as [|[k0 r0] m' IH]; intros o rs k o' rs' k' s ND I1 I2 N1 N2; [destruct I1|].
+  rewrite SP.usats_cons in ND. apply NoDup_app_iff in ND. destruct ND as (ND1 & ND2 & ND3).
+  assert (InU : forall oo rr kk, In (oo, rr) m' -> nth_error (S.flatten rr) kk = Some s -> In s (SP.usats m')).
+  { intros oo rr kk Hi Hn. unfold SP.usats. apply in_flat_map. exists (oo, rr). split; auto. cbn. eapply nth_error_In; eauto. }
+  destruct I1 as [I1|I1]; destruct I2 as [I2|I2].
+  - inv I1. inv I2. split; [reflexivity|]. rewrite NoDup_nth_error in ND1. apply ND1; [apply nth_error_Some; congruence|congruence].
+  - inv I1. exfalso. eapply ND3; [eapply nth_error_In; exact N1|eapply InU; eauto].
+  - inv I2. exfalso. eapply ND3; [eapply nth_error_In; exact N2|eapply InU; eauto].
+  - eapply IH; eauto.
+Qed.
+
+Lemma erase_nonempty : forall c, Forall (fun b : block => b <> []) c -> SP.nonempty_blocks (erase_chain c).
+Proof.
+  intros c H. unfold SP.nonempty_blocks, erase_chain. apply Forall_forall. intros b Hb. apply in_map_iff in Hb.
+  destruct Hb as (b0 & <- & Hin). rewrite Forall_forall in H. specialize (H b0 Hin). destruct b0; [congruence|discriminate].
+Qed.
+
+(* Index::find(sat) returns the satpoint the inscription index reports - for every inscription that has a sat
+   and is held by a real output or by the lost-sats pseudo-output. *)
+Theorem find_is_satpoint : forall cfg c st st2,
+  c_sats cfg = true -> Forall block_ok3 c -> Forall (fun b : block => b <> []) c ->
+  index_chain cfg 0 c empty_state = Ok st -> S.run (erase_chain c) = Ok st2 ->
+  forall op u, tgP op (s_utxo st) = Some u -> (fst op <> 0 \/ op = null_op) ->
+  forall s off, In (s, off) (u_insc u) ->
+  forall e n, tgN s (s_entries st) = Some e -> i_sat e = Some n ->
+    S.find st2 n = Ok (Some (op, off)).
+Proof.
+  intros cfg c st st2 HS BO NE H1 H2 op u Hu Hop s off Hp e n He Hn.
+  assert (Hnu : op <> unbound_op).
+  { destruct Hop as [Hz| ->]; [intro; subst; apply Hz; reflexivity | discriminate]. }
+  pose proof (sat_invariant cfg HS c st BO H1 op u Hu Hnu s off Hp e n He Hn) as Hcalc.
+  destruct (index_chain_bridge cfg c 0 empty_state st S.init st2 HS BR_init) as [(h' & [BU BN BH]) BV]; auto.
+  { intros o x _ Hq. discriminate. }
+  pose proof (erase_nonempty c NE) as NE2.
+  pose proof (calc_nth _ _ _ _ Hcalc (N.le_0_l _)) as Hnth. rewrite N.sub_0_r in Hnth.
+  (* the sat is stored at (op, off) in the other model *)
+  assert (Hat : exists rs, In (op, rs) (S.entries st2) /\ nth_error (S.flatten rs) (N.to_nat off) = Some n).
+  { destruct Hop as [Hz| ->].
+    - exists (u_ranges u). split; auto. specialize (BV op u Hz Hu). apply aget_In in BV.
+      unfold S.entries. destruct (S.lost st2); [exact BV|right; exact BV].
+    - exists (S.lost st2). unfold RN, entry_at in BN. rewrite Hu in BN. rewrite <- BN. split; auto.
+      unfold S.entries. rewrite <- BN. destruct (u_ranges u) as [|r0 l0] eqn:Q.
+      + exfalso. rewrite ?Q in Hnth. cbn in Hnth. destruct (N.to_nat off); discriminate Hnth.
+      + left. reflexivity. }
+  destruct Hat as (rs & Hin & Hn2).
+  assert (Hall : In n (SP.all_sats st2)).
+  { apply SP.usats_entries. unfold SP.usats. apply in_flat_map. exists (op, rs). split; auto. cbn. eapply nth_error_In; eauto. }
+  destruct (SP.stored_sats_below_supply _ _ _ NE2 H2 Hall) as [L1 L2].
+  rewrite (SP.find_indexed st2 n L1 L2).
+  destruct (SP.find_scan_correct st2 n) as [F1 F2].
+  destruct (S.find_scan n (S.entries st2)) as [[o k]|] eqn:Q; [|exfalso; exact (F2 eq_refl Hall)].
+  destruct (F1 o k eq_refl) as (rs' & Hin' & Hn').
+  assert (ND : NoDup (SP.usats (S.entries st2))).
+  { pose proof (SP.no_sat_twice _ _ NE2 H2) as ND0. apply NoDup_app_iff in ND0. destruct ND0 as (ND0 & _ & _).
+    unfold S.entries, SP.all_sats in *. destruct (S.lost st2) as [|r0 l0]; [rewrite app_nil_r in ND0; exact ND0|].
+    rewrite SP.usats_cons. eapply Permutation_NoDup; [apply Permutation_app_comm|exact ND0]. }
+  destruct (sat_at_unique _ _ _ _ _ _ _ _ ND Hin' Hin Hn' Hn2) as [-> Hk].
+  f_equal. f_equal. f_equal. lia.
+Qed.
